@@ -83,32 +83,55 @@ def run_case(args):
     out, err, rc = runner.run_opensmt(binary, script, tp, timeout=30)
     res = {"idx": idx, "script": script, "problems": [], "cores": 0, "members": 0, "logic": p.logic}
     # which checks see two current assertions with the same (constructed) term? (from opensmt's own term ids)
-    dup_checks = set()
+    dup_checks, twin_checks = set(), set()
     if tp.exists():
         try:
             tr = trace.Trace(tp)
             ms0 = next((e[2] for e in tr.main if e[1] in ("as", "chk")), None)
             levels, kk = [[]], -1
+            popped_canon, canon_memo = set(), {}
+
+            def canon(tt, i):
+                """the term with nested conjunctions / disjunctions flattened and arguments sorted (what max-arity
+                flattening makes of it)"""
+                key = (id(tt), i)
+                if key not in canon_memo:
+                    n = tt.nodes[i]
+                    kids = []
+                    for a in n.args:
+                        ca = canon(tt, a)
+                        if n.op in ("and", "or") and ca[0] == n.op:
+                            kids += list(ca[1])
+                        else:
+                            kids.append(ca)
+                    if n.op in ("and", "or"):
+                        kids = sorted(set(kids), key=repr)
+                    canon_memo[key] = (n.op if not n.op.startswith(("var:", "uf:")) else n.op + ":" + n.name, tuple(kids))
+                return canon_memo[key]
             for e in tr.main:
                 if len(e) < 3 or e[2] != ms0:
                     continue
                 if e[1] == "as":
                     while len(levels) <= e[3]:
                         levels.append([])
-                    levels[e[3]].append(e[5])
+                    levels[e[3]].append((e[4], e[5]))
                 elif e[1] == "fr" and e[3] == "push":
                     levels.append([])
                 elif e[1] == "fr" and e[3] == "pop" and len(levels) > 1:
-                    levels.pop()
+                    for (lg, t) in levels.pop():
+                        popped_canon.add(canon(tr.logics[lg], t))
                 elif e[1] == "chk":
                     kk += 1
-                    act = [t for lv in levels for t in lv]
+                    act = [t for lv in levels for (lg, t) in lv]
                     if len(set(act)) < len(act):
                         dup_checks.add(kk)
+                    if any(canon(tr.logics[lg], t) in popped_canon for lv in levels for (lg, t) in lv):
+                        twin_checks.add(kk)
         except Exception:
             pass
         tp.unlink(missing_ok=True)
     res["dup_checks"] = sorted(dup_checks)
+    res["twin_checks"] = sorted(twin_checks)
     if rc not in (0, 1):
         res["problems"].append({"what": f"opensmt terminated abnormally (status {rc})", "stderr": err[-300:]})
         return res
@@ -171,7 +194,8 @@ def run_case(args):
         v = certify.verdict(decls, background + members, logic_line, binary)
         if v.startswith("sat"):
             res["problems"].append({"what": f"check #{k}: the core together with the unnamed assertions is satisfiable ({v})",
-                                    "core": members, "background": background, "duplicate_assertion_terms": k in dup_checks})
+                                    "core": members, "background": background, "duplicate_assertion_terms": k in dup_checks,
+                                    "popped_twin_terms": k in twin_checks})
         elif v != "unsat-certified":
             res.setdefault("uncertified", 0); res["uncertified"] = res.get("uncertified", 0) + 1
         if minimal and v.startswith("unsat"):
@@ -199,6 +223,8 @@ def classify(pr, res):
     """known findings are identified by the shape of the history, not by the symptom"""
     if pr.get("duplicate_assertion_terms"):
         return "duplicate-assertion-term"
+    if pr.get("popped_twin_terms"):
+        return "popped-twin-term"
     return None
 
 
